@@ -301,7 +301,7 @@ func (g *Gen) newFK(s *Sch, t *Tbl) (*FK, *Col) {
 		if t.Strict {
 			c.Type = "int"
 		}
-		f := &FK{Name: fmt.Sprintf("%s_f%d", t.Name, g.next()), Cols: []string{c.Name, "id"}, RefTable: p.Name, RefCols: []string{"id", "id2"}}
+		f := &FK{Name: fmt.Sprintf("%s_f%d", t.Name, g.next()), Cols: []string{c.Name, "id"}, RefTable: p.Name, RefCols: append([]string(nil), p.PK...)}
 		f.OnDelete = []string{"", "CASCADE", "NO ACTION"}[g.T.Draw("on-delete", 3)]
 		g.use("composite-fk")
 		return f, c
